@@ -20,12 +20,14 @@ Deliberately boring: no regexes, no knowledge of mypy's data structures.  Quoted
 
 from __future__ import annotations
 
+from functools import lru_cache
 from typing import Any, Callable, Sequence
 
 INLINE, CONCRETE, UNSTRUCTURED, STRUCTURED, CMDLINE, GLOBAL = 1, 2, 3, 4, 5, 6
 LEVEL_NAMES = {1: "inline", 2: "concrete", 3: "unstructured", 4: "structured", 5: "cmdline", 6: "global"}
 
 
+@lru_cache(maxsize=None)
 def doc_matches(pattern: str, module: str) -> bool:
     """Stars match zero or more module components; every other component matches itself."""
 
